@@ -21,7 +21,7 @@ import UgoVerif.Proofs.CompSimFall
     with the tables regenerated from opcodes.go and token/token.go;
   * two slices of the simulation theorem compile ⊑ Sem (section "compile ⊑ Sem" below):
     `compile_expr_correct` (expressions over uncaptured scalar locals), `compile_stmt_correct` /
-    `compile_stmts_correct` (`e;`, `x := e`, `var x = e`, `var x`, `x = e`, `x op= e`, `x++`, `x--`, blocks,
+    `compile_stmts_correct` (`e;`, `x := e`, `var x = e`, `var x`, `var ( … )` groups, `x = e`, `x op= e`, `x++`, `x--`, blocks,
     `if` / `else` also with an init statement or a boolean literal as condition, `return`), with
     the VM heap related to the reference heap modulo the reference semantics' variable boxes, and
     the whole-script corollary `C02_fragment` for ALL scripts of that fragment (compile-model output,
@@ -415,7 +415,7 @@ theorem vm_tokens_match_source :
     error object from the same name and message (at different addresses: the heaps differ).
 
   `compile_stmt_correct` / `compile_stmts_correct`: a statement (list) of `StmtF` — `e;`, `x := e`,
-  `var x = e`, `var x`, `x = e`, `x op= e`, `x++`, `x--`, `{ … }`, `if c { … }`, `if c { … } else { … }` / `else if`
+  `var x = e`, `var x`, `var (a = e; b; …)` (a group of one-name specifications), `x = e`, `x op= e`, `x++`, `x--`, `{ … }`, `if c { … }`, `if c { … } else { … }` / `else if`
   (`c` an expression of the fragment that is not a boolean literal, or the literal `true`: the compiler
   then emits the body only, or the literal `false`: a JUMP and the else part only), `if init; c { … }` with or without `else` (`init` a statement of the
   fragment, its variables in scope of `c`, body and else part), `return`, `return e`, the empty statement — compiled from `cs` to `cs'` in a state with a function table, outside `try`,
@@ -451,7 +451,7 @@ theorem vm_tokens_match_source :
   Not covered (the ladder continues): loops (`break` / `continue` patching), captured variables /
   closures / free variables, calls, arrays / maps / index / selector / slice and every other value
   with a heap address (the heap relation then needs an address map), `try` / `catch` / `finally` /
-  `throw` (C03), globals, builtins, `const` declarations, `var` with several names or specifications, destructuring,
+  `throw` (C03), globals, builtins, `const` declarations, `var a, b = …` (several names in one specification), destructuring,
   `param`, imports / modules, `if init; <boolean literal>`, and the
   optimizer (C01).  -/
 
@@ -873,14 +873,41 @@ example : ∃ n, ∀ fuel, n ≤ fuel → (runFrom F0 fuel .nil [] (loadProg (bc
       exact (C02_fragment F0 [] [] file3 (bcOf file3) hb0 hF3 hc3 hsp3 (startState (bcOf file3)) (heapRel_refl _) 60 {} ss1
         _ t1 hr).2
 
+/-! #### a `var` group: `var (a = 1; b; c = a + 2); b = a + c; return b * c` -/
+
+def file4 : List Stmt :=
+  [ .declValue 1 tVar [(some 0, [(6, "a")], [some (.int 10 1#64)]), (some 1, [(13, "b")], []),
+      (some 2, [(16, "c")], [some (.binary 20 tAdd (.ident 20 "a") (.int 24 2#64))])],
+    .assign 28 tAssign [.ident 28 "b"] [.binary 32 tAdd (.ident 32 "a") (.ident 36 "c")],
+    .return_ 39 (some (.binary 46 tMul (.ident 46 "b") (.ident 50 "c"))) ]
+
+theorem hc4 : Compile.compileFile [] [] file4 = .ok (bcOf file4) := hcOf file4 (by decide +kernel)
+theorem hF4 : StmtsF [] file4 = true := by decide +kernel
+theorem hsp4 : (bcOf file4).main.numLocals + needL file4 ≤ 2048 := by decide +kernel
+theorem sem4 : (match (exec ((Sem.runProgram F0 60 file4 []).run {}) (startState (bcOf file4))).1 with
+    | .ok (.value v, _) => decide (v = V.int 12#64) | _ => false) = true := by decide +kernel
+example : (match (runFrom F0 200 .nil [] (loadProg (bcOf file4))).1 with
+    | .value v => decide (v = V.int 12#64) | _ => false) = true := by decide +kernel
+example : ∃ n, ∀ fuel, n ≤ fuel → (runFrom F0 fuel .nil [] (loadProg (bcOf file4))).1 = VM.Outcome.value (.int 12#64) := by
+  have hres := sem4
+  cases hr : exec ((Sem.runProgram F0 60 file4 []).run {}) (startState (bcOf file4)) with
+  | mk r t1 =>
+    rw [hr] at hres
+    match r, hres with
+    | .ok (.value v, ss1), hv =>
+      have hv' : v = V.int 12#64 := of_decide_eq_true hv
+      subst hv'
+      exact (C02_fragment F0 [] [] file4 (bcOf file4) hb0 hF4 hc4 hsp4 (startState (bcOf file4)) (heapRel_refl _) 60 {} ss1
+        _ t1 hr).2
+
 end Ex
 /-- the source-level statement (not proved; tested by stream `sem`).  Proved slices of it:
     `compile_expr_correct`, `compile_stmt_correct`, `compile_stmts_correct`, `C02_fragment` above —
-    scripts built from expression statements, `:=` / `var` (with or without value) / `=` / compound assignment /
+    scripts built from expression statements, `:=` / `var` (with or without value, groups) / `=` / compound assignment /
     `++` / `--` on uncaptured scalar locals, blocks, `if` / `else` (also `if init; c`, `if true`, `if false`), `return`, falling off
     the end.  Still only tested: loops, captured variables / closures,
     calls, containers (arrays, maps, index, selector, slice), `try` / `catch` / `finally` / `throw`,
-    globals, modules / imports, builtins, `const` declarations, `var` groups, destructuring, `param` -/
+    globals, modules / imports, builtins, `const` declarations, `var a, b = …`, destructuring, `param` -/
 def C02_full (Script Input Outcome : Type) (impl sem : Script → Input → Option Outcome) : Prop :=
   ∀ p i o₁ o₂, impl p i = some o₁ → sem p i = some o₂ → o₁ = o₂
 
